@@ -322,3 +322,78 @@ func H_C18_arguments() {
 	vfNote(o1)
 	vfAssert(o1 == o2, "Arguments presents piped and slot-placed values at the positions of the plain call")
 }
+
+// H_C18_scopeOps2 (thorough): two scope operations on one variable at two nesting depths -
+// the first inside an inner body (if / range / block / include) nested in an outer body of
+// any of the four kinds, the second in the outer body after the inner one has ended - with
+// the variable declared at the top level, in the outer body, or not at all: the bindings
+// seen at five observation points (inner, outer before/after the second operation, and top
+// level) equal those of the template written with := / = instead of the API calls; a
+// failure (Set of an undeclared name) occurs in both or in neither.
+//
+//gosym:reach compared,both-fail
+//gosym:thorough-only
+func H_C18_scopeOps2() {
+	ops := []string{"let", "set", "setorlet"}
+	op1 := ops[ndChoice("op1", len(ops))]
+	op2 := ops[ndChoice("op2", len(ops))]
+	declAt := ndChoice("declAt", 3) // 0 nowhere, 1 top level, 2 outer body
+	outer, inner := ndChoice("outer", 4), ndChoice("inner", 4)
+	probe := `{{ isset(x) ? x : "-" }}`
+	// whether x is visible (declared) where each operation runs, for the SetOrLet twin
+	decl1 := declAt != 0
+	decl2 := declAt != 0
+	open := func(site int, file string, body string, files *[]string) string {
+		switch site {
+		case 0:
+			return `{{ if true }}` + body + `{{ end }}`
+		case 1:
+			return `{{ range one }}` + body + `{{ end }}`
+		case 2:
+			return `{{ block ` + file[1:2] + `() }}` + body + `{{ end }}`
+		}
+		*files = append(*files, file, body)
+		return `{{ include "` + file + `" }}`
+	}
+	build := func(a1, a2 string) []string {
+		var files []string
+		innerBody := `{{ opened2 := 1 }}` + a1 + `[` + probe + `]`
+		outerBody := `{{ opened1 := 1 }}`
+		if declAt == 2 {
+			outerBody += `{{ x := "mid" }}`
+		}
+		outerBody += open(inner, "/i.jet", innerBody, &files) + `(` + probe + `)` + a2 + `~` + probe + `~`
+		top := ""
+		if declAt == 1 {
+			top = `{{ x := "top" }}`
+		}
+		src := top + open(outer, "/o.jet", outerBody, &files) + `<` + probe + `>`
+		return append([]string{"/m.jet", src}, files...)
+	}
+	run := func(api bool) (string, bool) {
+		a1, a2 := `{{ op1() }}`, `{{ op2() }}`
+		if !api {
+			a1, a2 = c18Syntax(op1, "x", "n1", decl1), c18Syntax(op2, "x", "n2", decl2)
+		}
+		set := hxSet(nil, build(a1, a2)...)
+		vars := make(VarMap)
+		vars.Set("one", []int{1})
+		vars.SetFunc("op1", c18Op(op1, "x", "n1"))
+		vars.SetFunc("op2", c18Op(op2, "x", "n2"))
+		out, err := hxExec(set, "/m.jet", vars, nil)
+		return out, err != nil
+	}
+	// (bodies of all four kinds, included templates too, see the enclosing scopes; a Let in
+	// the inner body is gone again in the outer body, so decl2 is as declared)
+	apiOut, apiErr := run(true)
+	synOut, synErr := run(false)
+	if synErr {
+		vfReach("both-fail")
+		vfAssert(apiErr, "the API call fails where its syntax twin does")
+		return
+	}
+	vfReach("compared")
+	vfAssert(!apiErr, "the API call succeeds where the syntax does")
+	vfNote(apiOut)
+	vfAssert(apiOut == synOut, "the API operations leave the same bindings as their syntax twins")
+}
